@@ -20,7 +20,8 @@ CHECKS = {
         technique="stateless model checking of the implementation: controlled scheduler + preemption-bounded (quick) / unbounded (thorough) DFS over all interleavings",
         level_text="Every interleaving (quick: <=2 preemptions; thorough: all) of the real ingestion workers applying 2-3 back-to-back updates of one alert is executed on the real provider+dispatcher and the group copy is compared with the provider copy; a concurrency-1 variant discriminates other causes.",
         level_note="Trusted: sync shims, synctest virtual time, race-freedom of hooked packages. Bounds: 2-3 updates, one alert, one route, 1/2/4 workers.",
-        units=[dict(pkg="dispatch", test="TestVerifC14", gomaxprocs=1, shards_quick=4, shards_thorough=16, budget_quick=60, budget_thorough=900)],
+        units=[dict(pkg="dispatch", test="TestVerifC14", gomaxprocs=1, shards_quick=4, shards_thorough=16, budget_quick=60, budget_thorough=900),
+               dict(pkg="dispatch", test="TestVerifRaceDispatch", race=True, shards=1, budget_quick=30, budget_thorough=120, env={"VERIF_RACE_PROP": "C14"})],
     ),
 }
 
@@ -62,7 +63,8 @@ CHECKS["C02"] = dict(
     assumptions=E1_ASSUME,
     units=[dict(pkg="silence", test="TestVerifC02Obj", shards_quick=12, shards_thorough=16, budget_quick=90, budget_thorough=1200),
            dict(pkg="silence", test="TestVerifC02Sched", gomaxprocs=1, shards_quick=4, shards_thorough=16, budget_quick=60, budget_thorough=900),
-           dict(pkg="app", test="TestVerifC02App", shards_quick=16, shards_thorough=16, budget_quick=200, budget_thorough=1200)],
+           dict(pkg="app", test="TestVerifC02App", shards_quick=16, shards_thorough=16, budget_quick=200, budget_thorough=1200),
+           dict(pkg="silence", test="TestVerifRaceSilence", race=True, shards=1, budget_quick=30, budget_thorough=120)],
 )
 
 CHECKS["C12"] = dict(
@@ -95,7 +97,8 @@ CHECKS["C10"] = dict(
     level_text="After every event Query for each key equals the reference (newest timestamp among logged/accepted entries, refused if expired at receipt, present until expiry, gone after a GC past expiry, receiver data int/float/string unchanged); any order/duplication/batching converges; under concurrency the final entry is the newest and successive reads never go backwards.",
     level_note="Timestamp ties are not generated (the statement does not order them). A message never carries two entries of one key (neither a broadcast nor a full state does).",
     assumptions=E1_ASSUME + E2_ASSUME,
-    units=[dict(pkg="nflog", test="TestVerifC10", gomaxprocs=1, shards_quick=16, shards_thorough=16, budget_quick=90, budget_thorough=1200)],
+    units=[dict(pkg="nflog", test="TestVerifC10", gomaxprocs=1, shards_quick=16, shards_thorough=16, budget_quick=90, budget_thorough=1200),
+           dict(pkg="nflog", test="TestVerifRaceNflog", race=True, shards=1, budget_quick=30, budget_thorough=120)],
 )
 
 FAPP_ASSUME = E1_ASSUME + [
